@@ -1,5 +1,163 @@
 import Sentinel.Drv.Common
-/-! Driver for the metric aggregator bridge (stub: replaced by the real driver) -/
+import Sentinel.Drv.C17
+import Sentinel.Model.Aggregator
+/-! Driver for the metric-aggregator bridge (internal check `AGG`, an extra phase of C17).
+
+`model` = `Sentinel.Agg` (node arrays of C08 + `doAggregate` + the writer / searcher of C17);
+`spec`  = the reference recomputed from the **recording history alone**: per resource and second the sum of the
+recorded events of that second, active ones only, each second handed over exactly once in ascending order; the
+log queries are answered by C17's reference over the items the reference says were handed over (with C17's
+known-finding regions marked).  Where the hypotheses of the theorems fail (an aggregate arrives so late that the
+array has already recycled buckets of the window; bucket length not a divisor of 1000 ms; clock going backwards)
+the spec answers `?` for that aggregate and continues with the exact retained content. -/
 namespace Sentinel.Drv.AGG
-def run (_mode : String) : IO Unit := IO.eprintln "AGG: driver not implemented"
+open Sentinel.LA Sentinel.MetricLog Sentinel.Agg Sentinel.Drv
+open Sentinel.Drv.C17 (strBytes resOfTok showItem showItems fileName getCache setCache specAnswer insertSorted)
+
+/-- spec side: a resource as the reference sees it -/
+structure SNode where
+  res : Bytes
+  cls : Int
+  t0 : Nat                               -- creation time of the node
+  evs : List (Nat × Bucket) := []       -- recordings, in order
+
+structure St where
+  now : Nat := 0
+  m : Option Agg.St := none              -- model side (and the writer of the spec side)
+  snodes : List SNode := []
+  mono : Bool := true
+  t0 : Nat := 0
+  caches : List (String × Cache) := []
+
+def bytesLt : Bytes → Bytes → Bool
+  | [], [] => false
+  | [], _ :: _ => true
+  | _ :: _, [] => false
+  | a :: r, b :: s => if a < b then true else if b < a then false else bytesLt r s
+
+def itemLe (a b : Item) : Bool := a.ts < b.ts || (a.ts == b.ts && !bytesLt b.res a.res)
+
+def insertItem (x : Item) : List Item → List Item
+  | [] => [x]
+  | y :: r => if itemLe y x then y :: insertItem x r else x :: y :: r
+
+/-- canonical order of an answer: by time stamp, then resource name (the order of the nodes inside one second is the
+    iteration order of a Go map) -/
+def canon (xs : List Item) : List Item := xs.foldl (fun acc x => insertItem x acc) []
+
+def showBatches (bs : List (Nat × List Item)) : String :=
+  showList (bs.map fun b => s!"{b.1}=" ++ "+".intercalate ((canon b.2).map showItem))
+
+def resTok (r : String) : Bytes := if r == "IN" then inboundName else resOfTok r
+
+/-! ### spec side -/
+
+def supd (res : Bytes) (cls : Int) (t : Nat) (x : Bucket) : List SNode → List SNode
+  | [] => [{ res := res, cls := cls, t0 := t, evs := [(t, x)] }]
+  | nd :: r => if nd.res = res then { nd with evs := nd.evs ++ [(t, x)] } :: r else nd :: supd res cls t x r
+
+/-- the property-level claim for one node: for every second of `[lo, cur)` with a recording, the sum of the
+    recordings of that second -/
+def claimNode (nd : SNode) (lo cur : Nat) : List Item :=
+  let secs := ((nd.evs.map fun e => secOf e.1).filter fun s => decide (lo ≤ s ∧ s < cur)).eraseDups
+  ((secs.map fun s => (s, secRef nd.evs s)).filter fun p => active p.2).map (toItem nd.res nd.cls)
+
+/-- the exact content of the array for one node (C08 `secondItems_eq_ref_partial` / `secondItems_boundary_eq`):
+    recordings grouped by the second of their *bucket*, only buckets among the last `cnt` ones -/
+def exactNode (n L : Nat) (nd : SNode) (now lo cur : Nat) : List Item :=
+  let e := cbs L now
+  let touched := cbs L nd.t0 == e || nd.evs.any fun ev => cbs L ev.1 == e
+  let cnt := if now % L = 0 && !touched then n + 1 else n
+  let evs := nd.evs.filter fun ev => decide (lo ≤ cbs L ev.1 ∧ cbs L ev.1 < cur ∧ e < cbs L ev.1 + cnt * L)
+  let secs := (evs.map fun ev => secOf (cbs L ev.1)).eraseDups
+  ((secs.map fun s => (s, ((evs.filter fun ev => secOf (cbs L ev.1) = s).map (·.2)).sum)).filter fun p => active p.2).map
+    (toItem nd.res nd.cls)
+
+/-- the hypotheses of the theorems for this aggregate and node: the window is still wholly inside the array -/
+def boundOk (n L : Nat) (nd : SNode) (now lo : Nat) : Bool := decide (now < max lo (secOf nd.t0) + n * L)
+
+/-! ### the interpreter -/
+
+def parseRec (s : St) (res cls : String) : Option (Bytes × Int) :=
+  match s.m, cls.toInt? with
+  | some _, some c => some (resTok res, c)
+  | _, _ => none
+
+def doRecord (spec : Bool) (s : St) (res : Bytes) (cls : Int) (x : Bucket) : St :=
+  match s.m with
+  | none => s
+  | some m =>
+    if spec then { s with snodes := supd res cls s.now x s.snodes }
+    else { s with m := some (record m s.now res cls x) }
+
+def step (spec : Bool) (s : St) (ts : List String) (_ : String) : St × Option String :=
+  match ts with
+  | ["clock", t] => match t.toNat? with
+      | some t => ({ s with now := t, mono := s.mono && decide (s.now ≤ t) }, none)
+      | none => (s, some "bad-op")
+  | ["agg.new", a, b, n, I] => match a.toNat?, b.toNat?, n.toNat?, I.toNat? with
+      | some a, some b, some n, some I =>
+        if a = 0 ∨ b = 0 ∨ n = 0 ∨ I = 0 ∨ I % n ≠ 0 ∨ s.now = 0 then (s, some "bad-op")
+        else
+          let m := Agg.St.new n (I / n) s.now a b
+          ({ now := s.now, t0 := s.now, m := some (if spec then { m with nodes := [] } else m),
+             snodes := [{ res := inboundName, cls := 0, t0 := s.now }] }, some "ok")
+      | _, _, _, _ => (s, some "bad-op")
+  | ["record", res, cls, ev, amt] => match parseRec s res cls, Ev.ofString? ev, amt.toNat? with
+      | some (r, c), some ev, some amt => (doRecord spec s r c (evBucket ev amt), none)
+      | _, _, _ => (s, some "bad-op")
+  | ["conc", res, cls, c] => match parseRec s res cls, c.toInt? with
+      | some (r, cl), some c => (doRecord spec s r cl (concBucket c), none)
+      | _, _ => (s, some "bad-op")
+  | ["aggregate"] => match s.m with
+      | none => (s, some "bad-op")
+      | some m =>
+        if !spec then
+          let (m', bs) := aggregate m s.now
+          ({ s with m := some m' }, some (showBatches bs))
+        else
+          let cur := secOf s.now
+          if skips m.lastFetch cur then (s, some (if s.mono then "[]" else "?")) else
+          let lo := m.lastFetch.getD 0
+          let claim := batches (s.snodes.flatMap fun nd => claimNode nd lo cur)
+          let exact := batches (s.snodes.flatMap fun nd => exactNode m.n m.L nd s.now lo cur)
+          let ok := s.mono && decide (1000 % m.L = 0) && s.snodes.all fun nd => boundOk m.n m.L nd s.now lo
+          let m' := { m with lastFetch := some cur, w := runWrites m.w exact, written := m.written ++ exact }
+          ({ s with m := some m' }, some (if ok then showBatches claim else "?"))
+  | ["log.files"] => match s.m with
+      | some m =>
+        let xs := m.w.files.foldl (fun acc f =>
+          insertSorted (fileName f.name, f.data.length) (insertSorted (fileName f.name ++ ".idx", f.idx.length) acc)) []
+        (s, some (showList (xs.map fun p => s!"{p.1}:{p.2}")))
+      | none => (s, some "bad-op")
+  | ["log.find", sid, b, e, r] => match s.m, b.toNat?, e.toNat? with
+      | some m, some b, some e =>
+        let res := if r == "*" then [] else resTok r
+        let cs : C17.St := { now := s.now, w := some m.w, caches := s.caches, createds := [s.t0 / 1000] }
+        let c := getCache cs sid
+        let (c', xs) := find m.w.files c b e res
+        let s' := { s with caches := (setCache cs sid c').caches }
+        if spec then
+          (s', some (if !s.mono then "?" else
+            specAnswer cs m.w c b (fun v => canon (specFind v.perFile.flatten b e res))
+              (fun it => inRange b e it && resMatch res it)))
+        else (s', some (showItems (canon xs)))
+      | _, _, _ => (s, some "bad-op")
+  | ["log.from", sid, b, mx] => match s.m, b.toNat?, mx.toNat? with
+      | some m, some b, some mx =>
+        let cs : C17.St := { now := s.now, w := some m.w, caches := s.caches, createds := [s.t0 / 1000] }
+        let c := getCache cs sid
+        let (c', xs) := findFrom m.w.files c b mx
+        let s' := { s with caches := (setCache cs sid c').caches }
+        if spec then
+          (s', some (if !s.mono then "?" else
+            specAnswer cs m.w c b (fun v => canon (specFrom v.perFile b mx))
+              (fun it => decide (b / 1000 ≤ it.ts / 1000))))
+        else (s', some (showItems (canon xs)))
+      | _, _, _ => (s, some "bad-op")
+  | _ => (s, some "bad-op")
+
+def run (mode : String) : IO Unit :=
+  loop ({} : St) (step (mode == "spec"))
+
 end Sentinel.Drv.AGG
